@@ -101,12 +101,17 @@ func main() {
 		defer lwg.Wait()
 		// the RA's client certificate comes from a CA of its own, which is NOT among the configured server CAs; the
 		// certificate file holds the chain (leaf first, then that CA), as deployments with an intermediate do
-		clientIssuer := caserver.NewCA("verif client-certificate issuer")
+		// (root -> intermediate -> leaf; servers that verify client certificates know the ROOT only, so the RA has to
+		// present the intermediate from its file along with the leaf)
+		clientRoot := caserver.NewCA("verif client-certificate root")
+		clientIssuer := clientRoot.Intermediate("verif client-certificate issuer")
 		client := clientIssuer.Issue(caserver.Leaf{CN: "ra-client", Client: true})
 		clientCert, clientKey := caserver.WritePEM(dir, "client", client)
 		if pemLeaf, rerr := os.ReadFile(clientCert); rerr == nil {
 			os.WriteFile(clientCert, append(append(pemLeaf, '\n'), clientIssuer.PEM...), 0o600)
 		}
+		lwg.Add(1)
+		go func() { defer lwg.Done(); twoSigners(r, dir, ca1, ca2, clientCert, clientKey) }()
 		ips := []string{"127.0.0.2", "127.0.0.3", "127.0.0.4"}
 		n := r.Pick(600, 6000)
 		for i := 0; i < n; i++ {
@@ -136,7 +141,7 @@ func main() {
 			rec := caseRec{Bundle: bname, Endpoints: list, Variants: vars}
 			r.Eval(1)
 			r.Guard(c, "tls configuration", rec, func() {
-				judge(r, c, rec, bundles[bname], clientCert, clientKey, client, list, vars, ca1, ca2, foreign, sysCA, clientCA, clientIssuer)
+				judge(r, c, rec, bundles[bname], clientCert, clientKey, client, list, vars, ca1, ca2, foreign, sysCA, clientCA, clientIssuer, clientRoot)
 			})
 			if i < 3 {
 				r.Sample(rec)
@@ -184,6 +189,67 @@ func main() {
 		}
 		r.Floor(int64(r.Pick(600, 6000)), int64(r.Pick(400, 4000)))
 	})
+}
+
+// twoSigners: one server (certificate from CA A) stays up while two signers are used in turn: the first trusts CA A and
+// signs; the second trusts CA B only. What the first one negotiated with that server (a TLS session it could resume)
+// is no reason for the second to talk to it: the second signer fails and the server handles no request of its.
+func twoSigners(r *ev.Run, dir string, caA, caB *caserver.CA, clientCert, clientKey string) {
+	c := r.Case("two-signers-one-server", 0)
+	if c == nil {
+		return
+	}
+	sub := filepath.Join(dir, "two")
+	os.Mkdir(sub, 0o700)
+	pa, pb := filepath.Join(sub, "a.pem"), filepath.Join(sub, "b.pem")
+	os.WriteFile(pa, caA.PEM, 0o600)
+	os.WriteFile(pb, caB.PEM, 0o600)
+	ip := "127.0.1.78"
+	for _, proto12 := range []bool{false, true} {
+		conf := &tls.Config{Certificates: []tls.Certificate{caA.Issue(caserver.Leaf{CN: "crypki", IPs: []string{ip}})}, MinVersion: tls.VersionTLS12}
+		if proto12 {
+			conf.MaxVersion = tls.VersionTLS12
+		}
+		servers, port, err := caserver.StartGroup([]string{ip}, []*tls.Config{conf})
+		if err != nil {
+			r.Count("two signers: cannot start server (skipped)", 1)
+			return
+		}
+		now64 := uint64(time.Now().Unix())
+		text := string(ssh.MarshalAuthorizedKey(gen.MakeCert(gen.CertSpec{Key: gen.Pool()[0], KeyID: "two", ValidAfter: now64 - 10, ValidBefore: now64 + 100})))
+		servers[0].Set(func(context.Context, *proto.SSHCertificateSigningRequest) (*proto.SSHKey, error) {
+			return &proto.SSHKey{Key: text}, nil
+		})
+		rec := map[string]any{"tls12_only": proto12}
+		r.Eval(1)
+		r.Guard(c, "two signers, one server", rec, func() {
+			sign := func(bundle string) (int, error) {
+				s, err := crypki.NewSigner(crypki.SignerConfig{TLSClientKeyFile: clientKey, TLSClientCertFile: clientCert, TLSCACertFiles: []string{bundle}, CrypkiEndpoints: []string{ip}, CrypkiPort: uint(port), Retries: 1, PerTryTimeout: 10 * time.Second})
+				if err != nil {
+					return 0, err
+				}
+				ctx, cancel := context.WithTimeout(context.Background(), 30*time.Second)
+				defer cancel()
+				certs, _, serr := s.Sign(ctx, &proto.SSHCertificateSigningRequest{KeyMeta: &proto.KeyMeta{Identifier: "x"}, Principals: []string{"a"}, PublicKey: "k", Validity: 60})
+				return len(certs), serr
+			}
+			for round := 0; round < 3; round++ {
+				if n, err := sign(pa); err != nil || n != 1 {
+					r.Violation(c, "sign-fails-although-a-genuine-endpoint-is-configured:two-signers", fmt.Sprintf("first signer (trusts the server's CA): certs=%d err=%v", n, err), rec)
+					return
+				}
+				before := len(servers[0].Calls())
+				n, err := sign(pb)
+				if err == nil || len(servers[0].Calls()) != before {
+					r.Violation(c, "rpc-handled-by-non-genuine-server:trusted-by-an-earlier-signer-only", fmt.Sprintf("round %d: the second signer trusts another CA only, yet Sign returned certs=%d err=%v and the server handled %d request(s) of it", round, n, err, len(servers[0].Calls())-before), rec)
+					return
+				}
+			}
+			r.Count("signers with another bundle used after a signer that trusted the server: refused", 3)
+			r.Nontrivial(fmt.Sprintf("two-signers:%v", proto12))
+		})
+		servers[0].Stop()
+	}
 }
 
 // lapsingClientCert: the client certificate is valid when the signer is built and lapses 2..3 s later. A genuine
@@ -254,7 +320,7 @@ func lapsingClientCert(r *ev.Run, dir string, ca *caserver.CA) {
 	})
 }
 
-func judge(r *ev.Run, c *ev.Case, rec caseRec, bundle []string, clientCert, clientKey string, client tls.Certificate, list []string, vars []variant, ca1, ca2, foreign, sysCA, clientCA, clientIssuer *caserver.CA) {
+func judge(r *ev.Run, c *ev.Case, rec caseRec, bundle []string, clientCert, clientKey string, client tls.Certificate, list []string, vars []variant, ca1, ca2, foreign, sysCA, clientCA, clientIssuer, clientRoot *caserver.CA) {
 	now := time.Now()
 	var confs []*tls.Config
 	for k, v := range vars {
@@ -313,7 +379,7 @@ func judge(r *ev.Run, c *ev.Case, rec caseRec, bundle []string, clientCert, clie
 			}
 		}
 		pool := x509.NewCertPool()
-		pool.AddCert(clientIssuer.Cert)
+		pool.AddCert(clientRoot.Cert)
 		switch v.Client {
 		case "request":
 			conf.ClientAuth = tls.RequestClientCert
